@@ -1,0 +1,9 @@
+//go:build verif
+
+package operator
+
+import "reduction.dev/reduction/dkv"
+
+// VerifDB exposes the operator's database to the keyed-state harness (build tag verif only): it forces
+// memtable rotations between batches and lowers the compactor thresholds to simulation scale.
+func (o *Operator) VerifDB() *dkv.DB { return o.db }
